@@ -117,6 +117,48 @@ def run(tier, seed):
             res.count("stack-depth-%d" % len(ns2))
             if not ok or abs(tot - 1.0) > 1e-12:
                 bad.append(dict(method=meth, stack=ns2, failed=["spawn stack is the tensor product with weights summing to one (sum=%r)" % tot]))
+    # ---- callers and repeated use: the same sizes list reused for a second build; the quadrature= option of
+    #      EvenSamplingTrajectory; results of one call must not be affected by what a caller did to an earlier result
+    import mudslide, itertools
+    from mudslide.models import scattering_models as MM
+    def tensor(meth, sizes):
+        rules = [quadrature(n, 0.0, 1.0, method=meth) for n in sizes]
+        out = []
+        for idx in itertools.product(*[range(n) for n in sizes]):
+            wt = 1.0
+            for d, i in enumerate(idx): wt *= float(rules[d][1][i])
+            out.append((tuple(float(rules[d][0][i]) for d, i in enumerate(idx)), wt))
+        return out
+    def same_stack(pw, want):
+        return len(pw) == len(want) and all(tuple(map(float, p_)) == q and abs(float(w_) - v) <= 1e-14 for (p_, w_), (q, v) in zip(pw, want))
+    for meth in METHODS:
+        for sizes in ([3, 5], [2, 3, 5], [5, 3, 3]):
+            if meth == "simpson": sizes = [n_ + 1 if n_ % 2 == 0 else n_ for n_ in sizes]
+            lst_ = list(sizes)
+            first = SpawnStack.from_quadrature(lst_, method=meth).unravel()
+            second = SpawnStack.from_quadrature(lst_, method=meth).unravel()
+            res.count("stack-rebuilt-from-same-list"); res.case(("stack-reuse", meth, tuple(sizes)), True)
+            if lst_ != list(sizes) or not same_stack(first, tensor(meth, sizes)) or not same_stack(second, tensor(meth, sizes)):
+                bad.append(dict(method=meth, stack=sizes, failed=["a spawn stack built twice from the same sizes list is both times the tensor product in the given order (list after the calls: %r)" % (lst_,)]))
+            # through the trajectory constructor (twice from one options dict, as BatchedTraj does)
+            opts = dict(spawn_stack=list(sizes), quadrature=meth, dt=1.0, seed_sequence=3)
+            for rep in range(2):
+                tr = mudslide.EvenSamplingTrajectory(MM["simple"](), [-5.0], [10.0], 0, **opts)
+                res.count("stack-via-trajectory-option/" + meth)
+                if not same_stack(tr.spawn_stack.unravel(), tensor(meth, sizes)):
+                    bad.append(dict(method=meth, stack=sizes, failed=["EvenSamplingTrajectory(spawn_stack=%r, quadrature=%r) samples the tensor product of that rule (construction %d from the same options)" % (sizes, meth, rep + 1)])); break
+        # aliasing: scale the arrays returned by one call in place, then ask again
+        for n in (3, 5):
+            x1, w1 = quadrature(n, 0.0, 1.0, method=meth)
+            keepx, keepw = np.array(x1, copy=True), np.array(w1, copy=True)
+            try:
+                x1 *= 7.0; w1 *= 7.0
+            except Exception:
+                pass
+            x2, w2 = quadrature(n, 0.0, 1.0, method=meth)
+            res.count("repeat-after-inplace-edit")
+            if not (np.array_equal(np.asarray(x2), keepx) and np.array_equal(np.asarray(w2), keepw)):
+                bad.append(dict(method=meth, n=n, failed=["quadrature(n,a,b) depends only on its arguments: a second identical call returns the same rule after the caller rescaled the first result in place (weights now sum to %r)" % float(np.sum(w2))]))
     if bad:
         res.violation("quadrature violates: %s" % bad[0]["failed"][0],
                       dict(kind="oracle", failing_inputs=bad[:5], correspondence_failures=[meta[i] for i in failing[:5]],
@@ -127,7 +169,7 @@ def run(tier, seed):
                            failing_inputs=[meta[i] for i in failing[:10]], no_failing_input_found=True))
     return finish(res, thm,
                   rule="all five rules x n in 2..12 plus random n<=64 (odd for Simpson) x intervals {[-1,1],[0,1], random a, random/integer/log-uniform lengths}; "
-                       "spawn stacks of depth 1..4; non-trivial = distinct (rule,n,a,b) or (rule,stack)",
+                       "spawn stacks of depth 1..4, built twice from the same sizes list, through the EvenSamplingTrajectory quadrature= option, and after in-place edits of an earlier result; non-trivial = distinct (rule,n,a,b) or (rule,stack)",
                   assumptions=["numpy leggauss is an oracle (its spec is checked numerically per n)",
                                "Clenshaw-Curtis: numpy ifft replaced in the model by a direct O(n^2) inverse DFT",
                                "tolerance 2^-43 * scale on nodes and weights"])
